@@ -110,7 +110,9 @@ def network(draw, unbalanced=False, hazards=()):
             pos = min(pos, 1)  # early, so the launcher does not block before launching
         scripts[launcher].insert(pos, ("launch", f))
     # passing style per fiber: which channels arrive as arguments (the rest are captured module variables)
-    argstyle = [draw(st.integers(0, 2)) for _ in range(nf + 1)]
+    # 3: like 1, but the fiber's function is a closure made on the spot by a maker (launch mk(tag, chans)()): its
+    # captures are referenced by nothing but the running frame
+    argstyle = [draw(st.integers(0, 3)) for _ in range(nf + 1)]
     tags = [draw(st.integers(1, 99)) for _ in range(nf + 1)]
     # payload style: plain numbers, or every value boxed in a fresh list (a heap object that only the channel's
     # buffer / the parked sender keeps alive while it is in flight)
@@ -304,7 +306,7 @@ def build_program(net):
         cs = used(f)
         if style == 0:
             return []
-        if style == 1:
+        if style in (1, 3):
             return cs
         return cs[::2]
 
@@ -336,7 +338,10 @@ def build_program(net):
                 t = op[1]
                 tparams = params_of(t)
                 args = [N(net["tags"][t])] + [cref(f, c, params) for c in tparams]
-                body.append(("launch", ("call", V("fiber%d" % t), args)))
+                if net["argstyle"][t] == 3:
+                    body.append(("launch", ("call", ("call", V("fiber%d" % t), args), [])))
+                else:
+                    body.append(("launch", ("call", V("fiber%d" % t), args)))
             elif k == "close":
                 body.append(("expr", ("call", ("prop", cref(f, op[1], params), "close"), [])))
                 body.append(say(f, ["close %s" % chan_name(op[1])]))
@@ -376,7 +381,12 @@ def build_program(net):
     # functions are module level symbols, so forward references between them resolve at run time
     for f in range(1, nfib):
         params, body = bodies[f]
-        prog.append(("fn", "fiber%d" % f, ["tag"] + ["p_" + chan_name(c) for c in params], body))
+        if net["argstyle"][f] == 3:
+            # the maker returns the fiber's body as a closure over its own parameters
+            prog.append(("fn", "fiber%d" % f, ["tag"] + ["p_" + chan_name(c) for c in params],
+                         [("return", ("lambda", [], ("block", body)))]))
+        else:
+            prog.append(("fn", "fiber%d" % f, ["tag"] + ["p_" + chan_name(c) for c in params], body))
     _, mbody = body_of(0)
     prog.extend(mbody)
     return prog
